@@ -25,6 +25,7 @@ import (
 	"github.com/pinealctx/neptune/syncx/pipe/line"
 	"github.com/pinealctx/neptune/syncx/pipe/mline"
 
+	"nvharness/lib/c14q"
 	"nvharness/lib/corr"
 	"nvharness/lib/go2lean"
 	"nvharness/lib/gofacts"
@@ -326,7 +327,7 @@ func newExec(kind string, lanes, capQ int) *exec {
 }
 
 func (e *exec) settle() {
-	if err := quiesce(20 * time.Second); err != nil {
+	if err := c14q.Quiesce(20 * time.Second); err != nil {
 		harnessFail(err)
 	}
 }
